@@ -1,13 +1,21 @@
-"""Rank-dependence (SPMD taint) analysis on the AST of one function.
+"""Rank-dependence (SPMD taint) analysis on the AST of one function — flow sensitive.
 
-A name is *rank-variant* if some assignment to it uses a rank-variant name, a value obtained
-from rank-local nondeterminism (file-system queries), or is control dependent on a
-rank-variant condition.  Everything else is computed by deterministic code from values that are
-identical on all ranks, hence identical on all ranks (the SPMD rule of DESIGN §1.3).
-Conservative: loop/if bodies under a variant condition taint everything they assign."""
+A value is *rank-variant* if it is computed from `rank`, from rank-local nondeterminism (file-system queries, the RNG), from
+another variant value, or is assigned under a rank-variant control condition.  Everything else is computed by deterministic
+code from values that are identical on all ranks, hence identical on all ranks (the SPMD rule of DESIGN §1.3).  An
+assignment of an invariant value under invariant control makes the name invariant again (so a reused loop variable does not
+stay tainted), and the result of comm.bcast is invariant whatever its argument.  Loops are iterated to a fixed point.
+
+analyse(fnode) -> Result with
+   before[id(stmt)]   names that may be variant just before stmt
+   cond[id(node)]     for If / While / For: True if its condition / iterable may be variant when evaluated
+   final              names that may be variant at the end
+"""
 import ast
 
-LOCAL_SOURCES = {"os.path.isdir", "os.path.exists", "os.path.isfile", "np.random.uniform", "np.random.shuffle"}
+LOCAL_SOURCES = {"os.path.isdir", "os.path.exists", "os.path.isfile", "np.random.uniform", "np.random.shuffle",
+                 "np.random.rand", "np.random.normal", "time.time"}
+INVARIANT_CALLS = {"comm.bcast", "comm.allgather", "comm.Get_size"}
 
 
 def _dotted(n):
@@ -19,102 +27,170 @@ def _dotted(n):
     return None
 
 
-def variant_names(fnode, seeds=("rank",), gathered_ok=True):
-    variant = set(seeds)
+class Result:
+    def __init__(self):
+        self.before = {}
+        self.cond = {}
+        self.final = set()
 
-    def expr_variant(e):
-        for n in ast.walk(e):
-            if isinstance(n, ast.Name) and n.id in variant:
-                return True
-            if isinstance(n, ast.Call) and _dotted(n.func) in LOCAL_SOURCES:
-                return True
+
+def _expr_variant(e, var):
+    if e is None:
         return False
+    if isinstance(e, ast.Call) and _dotted(e.func) in INVARIANT_CALLS:
+        return False
+    for ch in ast.iter_child_nodes(e):
+        if isinstance(ch, ast.expr) or isinstance(ch, (ast.keyword, ast.comprehension)):
+            if _expr_variant(ch.value if isinstance(ch, ast.keyword) else ch, var) if not isinstance(ch, ast.comprehension) else \
+                    (_expr_variant(ch.iter, var) or any(_expr_variant(i, var) for i in ch.ifs)):
+                return True
+    if isinstance(e, ast.Name) and e.id in var:
+        return True
+    if isinstance(e, ast.Call) and _dotted(e.func) in LOCAL_SOURCES:
+        return True
+    return False
 
-    def targets(t):
-        out = set()
-        for n in ast.walk(t):
-            if isinstance(n, ast.Name):
-                out.add(n.id)
-                break
-        return out
 
-    def assigned(stmts):
-        out = set()
+def _target_names(t):
+    """(plain names bound, names of containers mutated)"""
+    plain, mut = set(), set()
+    if isinstance(t, ast.Name):
+        plain.add(t.id)
+    elif isinstance(t, (ast.Tuple, ast.List)):
+        for e in t.elts:
+            p, m = _target_names(e)
+            plain |= p
+            mut |= m
+    elif isinstance(t, ast.Starred):
+        return _target_names(t.value)
+    else:
+        b = t
+        while isinstance(b, (ast.Subscript, ast.Attribute)):
+            b = b.value
+        if isinstance(b, ast.Name):
+            mut.add(b.id)
+    return plain, mut
+
+
+def analyse(fnode, seeds=("rank",)):
+    res = Result()
+
+    def block(stmts, var, ctrl):
         for s in stmts:
-            for n in ast.walk(s):
-                if isinstance(n, ast.Name) and isinstance(n.ctx, ast.Store):
-                    out.add(n.id)
-                elif isinstance(n, (ast.Subscript, ast.Attribute)) and isinstance(n.ctx, ast.Store):
-                    b = n
-                    while isinstance(b, (ast.Subscript, ast.Attribute)):
-                        b = b.value
-                    if isinstance(b, ast.Name):
-                        out.add(b.id)
-                elif isinstance(n, ast.Call) and isinstance(n.func, ast.Attribute) and n.func.attr in ("append", "extend"):
-                    b = n.func.value
-                    while isinstance(b, (ast.Subscript, ast.Attribute)):
-                        b = b.value
-                    if isinstance(b, ast.Name):
-                        out.add(b.id)
-        return out
+            prev = res.before.get(id(s))
+            res.before[id(s)] = (prev | var) if prev is not None else set(var)
+            var = stmt(s, var, ctrl)
+        return var
 
-    changed = True
-    while changed:
-        changed = False
+    def assign(targets, value_variant, var, ctrl, index_exprs=()):
+        var = set(var)
+        for t in targets:
+            plain, mut = _target_names(t)
+            idxv = False
+            if isinstance(t, ast.Subscript):
+                idxv = _expr_variant(t.slice, var)
+            for nm in plain:
+                if value_variant or ctrl:
+                    var.add(nm)
+                else:
+                    var.discard(nm)
+            for nm in mut:
+                if value_variant or ctrl or idxv:
+                    var.add(nm)
+        return var
 
-        def visit(stmts, ctrl):
-            nonlocal changed
-            for s in stmts:
-                if isinstance(s, (ast.Assign, ast.AugAssign, ast.AnnAssign)):
-                    val = s.value
-                    tg = s.targets if isinstance(s, ast.Assign) else [s.target]
-                    # results of a bcast from a fixed root are rank-invariant whatever the argument
-                    is_bcast = isinstance(val, ast.Call) and _dotted(val.func) in ("comm.bcast",)
-                    v = ctrl or (not is_bcast and val is not None and expr_variant(val)) or \
-                        (isinstance(s, ast.AugAssign) and expr_variant(s.target))
-                    if not v:
-                        for t in tg:
-                            if isinstance(t, ast.Subscript) and expr_variant(t.slice):
-                                v = True
-                    if v:
-                        for t in tg:
-                            for nm in assigned([ast.Assign(targets=[t], value=ast.Constant(0))]):
-                                if nm not in variant:
-                                    variant.add(nm)
-                                    changed = True
-                elif isinstance(s, (ast.If, ast.While)):
-                    c = ctrl or expr_variant(s.test)
-                    visit(s.body, c)
-                    visit(s.orelse, c)
-                elif isinstance(s, ast.For):
-                    c = ctrl or expr_variant(s.iter)
-                    if c:
-                        for nm in assigned([ast.Assign(targets=[s.target], value=ast.Constant(0))]):
-                            if nm not in variant:
-                                variant.add(nm)
-                                changed = True
-                    visit(s.body, c)
-                    visit(s.orelse, c)
-                elif isinstance(s, ast.Try):
-                    visit(s.body, ctrl)
-                    for h in s.handlers:
-                        visit(h.body, ctrl)
-                    visit(s.orelse, ctrl)
-                    visit(s.finalbody, ctrl)
-                elif isinstance(s, ast.With):
-                    visit(s.body, ctrl)
-                elif isinstance(s, ast.Expr) and isinstance(s.value, ast.Call) and ctrl:
-                    for nm in assigned([s]):
-                        if nm not in variant:
-                            variant.add(nm)
-                            changed = True
-                elif isinstance(s, ast.Expr) and isinstance(s.value, ast.Call):
-                    # x.append(variant)
-                    c = s.value
-                    if isinstance(c.func, ast.Attribute) and c.func.attr in ("append", "extend") and any(expr_variant(a) for a in c.args):
-                        for nm in assigned([s]):
-                            if nm not in variant:
-                                variant.add(nm)
-                                changed = True
-        visit(fnode.body, False)
-    return variant
+    def stmt(s, var, ctrl):
+        if isinstance(s, ast.Assign):
+            return assign(s.targets, _expr_variant(s.value, var), var, ctrl)
+        if isinstance(s, ast.AugAssign):
+            v = _expr_variant(s.value, var) or _expr_variant(s.target, var)
+            return assign([s.target], v, var, ctrl)
+        if isinstance(s, ast.AnnAssign):
+            return assign([s.target], _expr_variant(s.value, var), var, ctrl)
+        if isinstance(s, ast.If):
+            c = _expr_variant(s.test, var)
+            res.cond[id(s)] = res.cond.get(id(s), False) or c
+            v1 = block(s.body, set(var), ctrl or c)
+            v2 = block(s.orelse, set(var), ctrl or c)
+            return v1 | v2
+        if isinstance(s, ast.While):
+            cur = set(var)
+            for _ in range(20):
+                c = _expr_variant(s.test, cur)
+                res.cond[id(s)] = res.cond.get(id(s), False) or c
+                nxt = block(s.body, set(cur), ctrl or c) | cur
+                if nxt == cur:
+                    break
+                cur = nxt
+            c = _expr_variant(s.test, cur)
+            res.cond[id(s)] = res.cond.get(id(s), False) or c
+            if c:
+                # everything assigned in the body is control dependent on a variant condition
+                cur = block(s.body, set(cur), True) | cur
+            return block(s.orelse, cur, ctrl)
+        if isinstance(s, ast.For):
+            cur = set(var)
+            for _ in range(20):
+                c = _expr_variant(s.iter, cur)
+                res.cond[id(s)] = res.cond.get(id(s), False) or c
+                inner = assign([s.target], c, cur, ctrl)
+                nxt = block(s.body, inner, ctrl or c) | cur
+                if nxt == cur:
+                    break
+                cur = nxt
+            return block(s.orelse, cur, ctrl)
+        if isinstance(s, ast.Try):
+            v = block(s.body, set(var), ctrl)
+            out = set(v)
+            for h in s.handlers:
+                # an exception is a rank-local event: what a handler assigns is variant
+                hv = set(v) | set(var)
+                if h.name:
+                    hv.add(h.name)
+                out |= block(h.body, hv, True)
+            out |= block(s.orelse, set(v), ctrl)
+            return block(s.finalbody, out, ctrl)
+        if isinstance(s, ast.With):
+            v = set(var)
+            for it in s.items:
+                if it.optional_vars is not None:
+                    v = assign([it.optional_vars], _expr_variant(it.context_expr, v), v, ctrl)
+            return block(s.body, v, ctrl)
+        if isinstance(s, ast.Expr) and isinstance(s.value, ast.Call):
+            c = s.value
+            if isinstance(c.func, ast.Attribute) and c.func.attr in ("append", "extend", "insert", "update", "pop", "remove", "sort", "fill"):
+                b = c.func.value
+                while isinstance(b, (ast.Subscript, ast.Attribute)):
+                    b = b.value
+                if isinstance(b, ast.Name) and (ctrl or any(_expr_variant(a, var) for a in c.args)):
+                    var = set(var)
+                    var.add(b.id)
+            if _dotted(c.func) in ("np.random.shuffle",) and c.args and isinstance(c.args[0], ast.Name):
+                pass    # seeded shuffles are deterministic; seeding is checked elsewhere (C16)
+            return var
+        if isinstance(s, ast.Delete):
+            return var
+        if isinstance(s, (ast.FunctionDef, ast.ClassDef)):
+            return var
+        return var
+
+    res.final = block(fnode.body, set(seeds), False)
+    return res
+
+
+def variant_names(fnode, seeds=("rank",)):
+    """Names that may be rank-variant at some point of the function (union over all program points)."""
+    r = analyse(fnode, seeds)
+    out = set(r.final)
+    for v in r.before.values():
+        out |= v
+    return out
+
+
+def variant_before(fnode, pred, seeds=("rank",)):
+    """Names that may be variant just before the first statement satisfying pred."""
+    r = analyse(fnode, seeds)
+    for n in ast.walk(fnode):
+        if isinstance(n, ast.stmt) and pred(n) and id(n) in r.before:
+            return r.before[id(n)]
+    return None
